@@ -194,6 +194,12 @@ class Interp:
             key = cx.render(e)
             if key in env:
                 return env[key]
+            if k == 'ArraySubscriptExpr' and len(ks) == 2:
+                iv = self.ev(ks[1], env)
+                if isinstance(iv, Con):
+                    key2 = '%s[%d]' % (cx.render(ks[0]), iv.v)
+                    if key2 in env:
+                        return env[key2]
             if k == 'DeclRefExpr' and e.get('ref', {}).get('kind') == 'EnumConstantDecl':
                 return TOP
             return TOP
